@@ -532,6 +532,38 @@ def check_scheme(ctx, lib, c):
     expect(outs[0] == outs[1], "capi-vs-cpp/lqibe/hash-input", "LQ-IBE through the C API and through C++ hash different bytes")
 
 
+# ---- marshalling wrappers: the same synthetic object / corrupted buffer through the C symbols and through the C++ functions ----
+def marshal_cases():
+    from . import c15
+    return c15.cases()
+
+
+def check_marshal(ctx, lib, c):
+    from . import c15
+    from .. import wk as wkmod
+    from ..runner import Violation
+    res = []
+    for cpp in (0, 1):
+        lib.dll.vf_set_use_cpp(cpp)
+        W = wkmod.WK(lib)
+        obs = []
+        try:
+            c15._check(_Null(), lib, W, c, obs)
+        except Violation as v:
+            # a C15 matter (reported by C15) unless the two routes disagree about it
+            obs.append(("c15-violation", v.sig))
+        finally:
+            W.close()
+            lib.dll.vf_set_use_cpp(0)
+        res.append(obs)
+    ctx.count(c, c["corrupt"] != "none" or c["kind"].startswith("lq"), "marshal-%s-%s-%s" % (c["kind"], "c" if c["comp"] else "u", c["corrupt"]))
+    a, b = res
+    sig = "capi-vs-cpp/%s-marshalling/%s" % ("lqibe" if c["kind"].startswith("lq") else "wkdibe", c["kind"])
+    expect(len(a) == len(b), sig + "/observations", lambda: "C route observed %r, C++ route observed %r" % ([x[0] for x in a], [x[0] for x in b]))
+    for x, y in zip(a, b):
+        expect(x == y, sig + "/" + x[0], lambda: "kind=%s compressed=%r corrupt=%s: C gives %r, C++ gives %r" % (c["kind"], c["comp"], c["corrupt"], x[:3] if x[0] != "wire" else "(bytes)", y[:3] if y[0] != "wire" else "(bytes)"))
+
+
 def prebuild(tier):
     PR.gt_pow_gen(3)
     C.gen_mul(1, 3)
@@ -542,4 +574,5 @@ def prebuild(tier):
 SUBCHECKS = [
     Sub("bls", bls_cases(), check_bls, 16000, 300000, ("asm",), ("asm", "asm:base", "p64", "p32")),
     Sub("schemes", scheme_cases(), check_scheme, 1200, 20000, ("asm",), ("asm", "p32")),
+    Sub("marshal", marshal_cases(), check_marshal, 12000, 150000, ("asm",), ("asm", "p32")),
 ]
